@@ -1,0 +1,31 @@
+//go:build verif
+
+package extensionsupport
+
+//@ spec func handledOID(s string) bool = s == OidCertExtAuthorityKeyId || s == OidCrlExtCrlNumber
+
+//@ global handledCRLExtensions invariant[C06] handled_table: forall s string :: (has(handledCRLExtensions, s) && handledCRLExtensions[s]) <==> handledOID(s)
+
+//@ func FindExtension
+//@   props C07 C04
+//@   requires extensions != nil
+//@   pure
+//@   ensures found_is_member: ret != nil ==> exists k int :: 0 <= k && k < len(*extensions) && oidString(content((*extensions)[k].Id)) == oidString(content(ret.Id)) && oidString(content(ret.Id)) == oidString
+
+//@ func CheckForCriticalUnhandledCRLExtensions
+//@   props C07 C06
+//@   requires extensions != nil
+//@   pure
+//@   ensures[C06] gate: err == nil ==> forall k int :: 0 <= k && k < len(*extensions) && (*extensions)[k].Critical ==> handledOID(oidString(content((*extensions)[k].Id)))
+//@   ensures[C06] gate_complete: err != nil ==> exists k int :: 0 <= k && k < len(*extensions) && (*extensions)[k].Critical && !handledOID(oidString(content((*extensions)[k].Id)))
+//@   loop 1 invariant[C06] forall k int :: 0 <= k && k <= $idx ==> ((*extensions)[k].Critical ==> handledOID(oidString(content((*extensions)[k].Id))))
+
+//@ func GeneralName.GetGeneralNameType
+//@   props C07
+//@   assigns E.uint8, X.stream
+
+//@ func findLastRecursiveContextSpecificTagInOrder
+//@   props C07
+//@   requires reader != nil && 0 <= offset && offset <= 4200
+//@   decreases 4300 - offset
+//@   assigns E.uint8, X.stream
